@@ -599,6 +599,7 @@ func (e *metaEngine) run(payload string) string {
 		outs = append(outs, "ok")
 	}
 	regs := []string{}
+	oracle := ""
 	for i := 0; i < metaRegs; i++ {
 		v, err := ns.Get(Symbol{Val: metaRegName(i)})
 		if err != nil {
@@ -606,8 +607,32 @@ func (e *metaEngine) run(payload string) string {
 			continue
 		}
 		regs = append(regs, metaRender(v))
+		// the `meta` builtin must agree with the struct field (nil / "not supported" when there is none)
+		viaBuiltin, err := evalText("(meta " + metaRegName(i) + ")")
+		field, has := metaField(v)
+		if has != (err == nil) || (has && metaRender(viaBuiltin) != metaRender(field)) {
+			oracle = "\t!(meta " + metaRegName(i) + ") disagrees with the Meta field"
+		}
 	}
-	return strings.Join(outs, " ") + " | " + strings.Join(regs, " ; ")
+	return strings.Join(outs, " ") + " | " + strings.Join(regs, " ; ") + oracle
+}
+
+func metaField(v MalType) (MalType, bool) {
+	switch t := v.(type) {
+	case List:
+		return t.Meta, true
+	case Vector:
+		return t.Meta, true
+	case HashMap:
+		return t.Meta, true
+	case Set:
+		return t.Meta, true
+	case Func:
+		return t.Meta, true
+	case MalFunc:
+		return t.Meta, true
+	}
+	return nil, false
 }
 
 func (e *metaEngine) classify(payload, obs string) string {
@@ -966,6 +991,11 @@ func (g *metaGen) step(dst int) {
 	case 35, 36:
 		a, _ := g.arg(mkAny)
 		b, _ := g.arg(mkAny)
+		if r.chance(1, 5) {
+			// functions (inside collections too): `==` on two closures / two builtins is a run-time panic
+			a, _ = g.arg(mkFn, mkVec)
+			b, _ = g.arg(mkFn, mkVec)
+		}
 		g.emit(dst, "=", mkAny, a, b)
 	case 37:
 		args := []mArg{}
